@@ -91,10 +91,19 @@ func checkC03(c *core.Ctx) error {
 					pos = ce.Pos()
 				}
 			}
+			// the value field of a scalar read directly (x.Value == 0): same defect without a method call
+			if sel, ok := n.(*ast.SelectorExpr); ok && sel.Sel.Name == "Value" {
+				if fv, ok := pkg.TypesInfo.Uses[sel.Sel].(*types.Var); ok && fv.IsField() {
+					if tv, ok := pkg.TypesInfo.Types[sel.X]; ok && isScalarTypeName(namedOfType(tv.Type)) {
+						bad = "the field Value"
+						pos = sel.Pos()
+					}
+				}
+			}
 			return true
 		})
 		c.Check(bad == "", "C03.R1", cons, "elements are skipped only through nullScalar()", pos,
-			"the iterator decides which elements to skip with "+bad+"(): an element whose value is zero but which carries derivatives is treated as a structural zero (derivatives are lost in conversions and products)")
+			"the iterator decides which elements to skip with "+bad+": an element whose value is zero but which carries derivatives is treated as a structural zero (derivatives are lost in conversions and products)")
 	})
 	// R1c: in skip()/Next() of the sparse iterators every removal of a stored entry (delete(values, i), index Delete) is
 	// reached only on the true edge of a condition that calls nullScalar() (for the Real types this is the only test that
